@@ -1,0 +1,64 @@
+//go:build verif
+
+package main
+
+// Contracts for govc (see /verif/DESIGN.md). Compiled only with -tags verif; comments only.
+
+//@ ghost func sortPerm(s seq[ref], j int) int
+//@ ghost func sortInv(s seq[ref], i int) int
+//@ extern sort.SliceStable(x, less)
+//@   mutates x
+//@   ensures perm-len: len(x) == len(x0)
+//@   ensures perm-range: forall j int :: 0 <= j && j < len(x) ==> 0 <= sortPerm(x, j) && sortPerm(x, j) < len(x0) && x[j] == x0[sortPerm(x, j)]
+//@   ensures perm-injective: forall j1 int, j2 int :: 0 <= j1 && j1 < j2 && j2 < len(x) ==> sortPerm(x, j1) != sortPerm(x, j2)
+//@   ensures perm-onto: forall i int :: 0 <= i && i < len(x0) ==> 0 <= sortInv(x, i) && sortInv(x, i) < len(x) && x[sortInv(x, i)] == x0[i]
+
+//@ extern (time.Time).Equal(t, u) (res)
+//@   ensures def: res == (t == u)
+//@ extern (time.Time).Before(t, u) (res)
+//@   ensures def: res == (t < u)
+
+//@ func sortAuditInfosByStartTime$1(i, j) (res)
+//@   props C20
+//@   requires in-range: 0 <= i && i < len(sorted) && 0 <= j && j < len(sorted)
+//@   ensures by-start-time-then-id: res == (sorted[i].StartTime < sorted[j].StartTime || (sorted[i].StartTime == sorted[j].StartTime && sorted[i].ID < sorted[j].ID))
+
+//@ func sortAuditInfosByStartTime(auditInfosByID) (res)
+//@   props C20
+//@   requires distinct-records: forall k1 string, k2 string :: k1 in auditInfosByID && k2 in auditInfosByID && k1 != k2 ==> auditInfosByID[k1] != auditInfosByID[k2]
+//@   modifies cells
+//@   ensures every-record-listed: forall k string :: k in auditInfosByID ==> exists j int :: 0 <= j && j < len(res) && res[j] == auditInfosByID[k]
+//@   ensures only-records-listed: forall j int :: 0 <= j && j < len(res) ==> exists k string :: k in auditInfosByID && res[j] == auditInfosByID[k]
+//@   ensures listed-once: forall i int, j int :: 0 <= i && i < j && j < len(res) ==> res[i] != res[j]
+//@   loop 0 invariant vis: forall k string :: $visited[k] ==> k in auditInfosByID
+//@   loop 0 invariant cover: forall k string :: $visited[k] ==> exists j int :: 0 <= j && j < len(sorted) && sorted[j] == auditInfosByID[k]
+//@   loop 0 invariant elems: forall j int :: 0 <= j && j < len(sorted) ==> exists k string :: $visited[k] && sorted[j] == auditInfosByID[k]
+//@   loop 0 invariant nodup: forall i int, j int :: 0 <= i && i < j && j < len(sorted) ==> sorted[i] != sorted[j]
+
+//@ func mergeStringAuditInfoMaps(ms) (merged)
+//@   props C20
+//@   modifies new(map[string]*scipipe.AuditInfo)
+//@   ensures fresh: fresh(merged)
+//@   ensures union: forall k string :: k in merged <==> exists i int :: 0 <= i && i < len(ms) && k in ms[i]
+//@   ensures values: forall k string :: k in merged ==> exists i int :: 0 <= i && i < len(ms) && k in ms[i] && merged[k] == ms[i][k]
+//@   loop 0 invariant range: 0 <= $i && $i <= len(ms)
+//@   loop 0 invariant union: forall k string :: k in merged <==> exists i int :: 0 <= i && i < $i && k in ms[i]
+//@   loop 0 invariant values: forall k string :: k in merged ==> exists i int :: 0 <= i && i < $i && k in ms[i] && merged[k] == ms[i][k]
+//@   loop 1 invariant vis: forall k string :: $visited[k] ==> k in m
+//@   loop 1 invariant union: forall k string :: k in merged <==> (exists i int :: 0 <= i && i < $i0 && k in ms[i]) || $visited[k]
+//@   loop 1 invariant values: forall k string :: k in merged ==> ($visited[k] && merged[k] == m[k]) || (!$visited[k] && exists i int :: 0 <= i && i < $i0 && k in ms[i] && merged[k] == ms[i][k])
+
+//@ func extractAuditInfosByID(auditInfo) (auditInfosByID)
+//@   props C20
+//@   modifies new(map[string]*scipipe.AuditInfo)
+//@   ensures root-listed: auditInfo.ID in auditInfosByID
+//@   ensures keyed-by-id: forall k string :: k in auditInfosByID ==> auditInfosByID[k] != nil && auditInfosByID[k].ID == k
+//@   ensures direct-upstream-listed: forall u string :: u in auditInfo.Upstream && auditInfo.Upstream[u] != nil ==> auditInfo.Upstream[u].ID in auditInfosByID
+//@   ensures closed-under-upstream: forall k string, u string :: k in auditInfosByID && u in auditInfosByID[k].Upstream && auditInfosByID[k].Upstream[u] != nil ==> auditInfosByID[k].Upstream[u].ID in auditInfosByID
+//@   ensures fresh: fresh(auditInfosByID)
+//@   loop 0 invariant vis: forall u string :: $visited[u] ==> u in auditInfo.Upstream
+//@   loop 0 invariant fresh: fresh(auditInfosByID)
+//@   loop 0 invariant root-listed: auditInfo.ID in auditInfosByID
+//@   loop 0 invariant keyed-by-id: forall k string :: k in auditInfosByID ==> auditInfosByID[k] != nil && auditInfosByID[k].ID == k
+//@   loop 0 invariant visited-upstream-listed: forall u string :: $visited[u] && auditInfo.Upstream[u] != nil ==> auditInfo.Upstream[u].ID in auditInfosByID
+//@   loop 0 invariant closed-under-upstream: forall k string, u string :: k in auditInfosByID && auditInfosByID[k] != auditInfo && u in auditInfosByID[k].Upstream && auditInfosByID[k].Upstream[u] != nil ==> auditInfosByID[k].Upstream[u].ID in auditInfosByID
